@@ -86,8 +86,12 @@ def _max(ex, st, args, dest_ty, func, where):
 # ---- slices / Vec<scalar>
 
 def _slice_iter(ex, st, args, dest_ty, func, where):
-    s = seq_of(ex, st, args[0])
-    return VStruct("SliceIter", [s, VInt(I(0), "usize")])
+    v = args[0]
+    while isinstance(v, VRef):
+        v = ex.deref(st, v)
+    if not isinstance(v, (VSeq, VList)):
+        raise Unsupported("iter() on %r" % (v,))
+    return VStruct("SliceIter", [v, VInt(I(0), "usize")])
 
 
 def _enumerate(ex, st, args, dest_ty, func, where):
@@ -326,7 +330,7 @@ def install_core(ex):
     A(r"<impl \w+>::is_power_of_two$", _is_pow2, "uN::is_power_of_two")
     A(r"^<\w+ as Ord>::min$|^std::cmp::min|^<\w+ as std::cmp::Ord>::min$", _min, "Ord::min")
     A(r"^<\w+ as Ord>::max$|^std::cmp::max|^<\w+ as std::cmp::Ord>::max$", _max, "Ord::max")
-    A(r"^core::slice::<impl \[\w+\]>::iter$", _slice_iter, "<[T]>::iter")
+    A(r"^core::slice::<impl \[[\w:]+\]>::iter$", _slice_iter, "<[T]>::iter")
     A(r"^core::slice::<impl \[\w+\]>::len$", _seq_len, "<[T]>::len")
     A(r"^core::slice::<impl \[\w+\]>::is_empty$", _seq_is_empty, "<[T]>::is_empty")
     A(r"^<std::slice::Iter<'_, \w+> as Iterator>::enumerate$", _enumerate, "Iterator::enumerate")
@@ -401,7 +405,7 @@ def _map_iter(ex, st, args, dest_ty, func, where):
     m = args[0]
     while isinstance(m, VRef):
         m = ex.deref(st, m)
-    return VStruct("MapIter", [m, VInt(I(0), "usize")])
+    return VStruct("MapKeys" if func.endswith("::keys") else "MapIter", [m, VInt(I(0), "usize")])
 
 
 def _map_iter_next(ex, st, args, dest_ty, func, where):
@@ -413,8 +417,8 @@ def _map_iter_next(ex, st, args, dest_ty, func, where):
     has = simp(nid < U)
     key = VRef("val", val=VInt(nid, "usize"))
     val = VRef("val", val=_select_val(entries, nid))
-    ex.store_ref(st, ref, VStruct("MapIter", [it.f[0], VInt(simp(z3.If(has, nid + 1, I(U))), "usize")]))
-    if "Keys<" in func:
+    ex.store_ref(st, ref, VStruct(it.name, [it.f[0], VInt(simp(z3.If(has, nid + 1, I(U))), "usize")]))
+    if "Keys<" in func or it.name == "MapKeys":
         return opt_sym(has, key)
     return opt_sym(has, VStruct("(tuple)", [key, val]))
 
@@ -542,7 +546,10 @@ def install_collections(ex, universe, sort_cap):
     ex.universe, ex.sort_cap = universe, sort_cap
     # these must precede the generic into_iter identity model
     ex.models.insert(0, (re.compile(r"^<&BTreeMap<.*> as IntoIterator>::into_iter$"), _map_iter, "<&BTreeMap as IntoIterator>::into_iter (ordered universe)"))
-    A = ex.add_model
+    _new = []
+
+    def A(pat, h, label=None):
+        _new.append((re.compile(pat), h, label or pat))
     A(r"^BTreeMap::<.*>::(iter|keys)$", _map_iter, "BTreeMap::{iter,keys}")
     A(r"^<std::collections::btree_map::(Iter|Keys)<'_, .*> as Iterator>::next$", _map_iter_next, "btree_map::{Iter,Keys}::next (ascending key order)")
     A(r"^BTreeMap::<.*>::get::<", _map_get, "BTreeMap::get")
@@ -561,6 +568,7 @@ def install_collections(ex, universe, sort_cap):
     A(r"^<std::vec::IntoIter<&PathBuf> as Iterator>::next$", _vec_into_iter_next, "vec::IntoIter::next")
     A(r"^<Vec<PathBuf> as (std::ops::)?DerefMut>::deref_mut$", _deref_mut_same, "<Vec<T> as DerefMut>::deref_mut")
     A(r"^std::slice::<impl \[PathBuf\]>::sort$|^core::slice::<impl \[PathBuf\]>::sort$", _sort_ids, "<[PathBuf]>::sort (sorted permutation axioms)")
+    ex.models = _new + ex.models
 
 
 # ----------------------------------------------------------------- std::time / std::fs metadata (arithmetic only)
